@@ -397,6 +397,16 @@ func (x *storeExec) afterMutation(e engine.Event, nd *snode, sig string) {
 		x.st.State(h)
 		x.st.StateOp(engine.HashStr(h, e.Ev+e.S))
 	}
+	if x.partner {
+		// a partner is not observed by the active property: whatever it really holds is, by
+		// definition, what it contributes to later merges and messages (a defect in a partner
+		// belongs to the property that owns its kind)
+		sn := x.snapStore(nd.real, "partner-resync")
+		nd.model.Exact = make(map[int]float64, len(sn.Bins))
+		for _, b := range sn.Bins {
+			nd.model.Exact[b.Index] = b.Count
+		}
+	}
 	switch x.prop {
 	case "C05":
 		if refmodel.IsCollapsing(nd.kind) {
